@@ -628,8 +628,131 @@ class FindMonitor(Monitor):
                                 w.fail("find-sent-for-a-filter-whose-listener-says-offered", node, dict(t=t, filter=f, known=known[:3]))
 
 
+class FindAnswerMonitor(Monitor):
+    """C12 in the system: a FindService entry delivered to a running stack is answered by exactly one unicast offer per
+    matching instance that is up and has already queued its first multicast offer - by nobody else; finds that meet an
+    instance within an instant of a lifecycle change or of its first offer are not judged"""
+    name = "findanswer"
+
+    def on_boot(self, node):
+        w = self.w
+        prot = node.prot
+        ann = prot.announcer
+        orig_q = ann.queue_send
+        orig_dg = prot.datagram_received
+        rec = dict(node=node, inc=node.incarnation, finds=[], offers=[])
+        w.findlogs.append(rec)
+
+        def queue_send(entry, remote=None):
+            if int(entry.sd_type) == 1 and entry.ttl > 0:
+                rec["offers"].append((w.h.loop.time(), remote, (entry.service_id, entry.instance_id)))
+            return orig_q(entry, remote=remote)
+
+        def datagram_received(data, addr, multicast):
+            if node.alive:
+                try:
+                    msgs = refwire.parse_sd_datagram(bytes(data))
+                except refwire.RefError:
+                    msgs = []
+                for sd in msgs:
+                    for e in sd["entries"]:
+                        if e["type"] == 0:
+                            rec["finds"].append((w.h.loop.time(), addr, multicast, (e["sid"], e["iid"], e["maj"], e["val"])))
+            return orig_dg(data, addr, multicast)
+
+        ann.queue_send = queue_send
+        prot.datagram_received = datagram_received
+
+    def finish(self):
+        w = self.w
+        tol = 4 * RES
+        for rec in w.findlogs:
+            node, inc = rec["node"], rec["inc"]
+            life = [x for x in w.lifelog if x[1] == node.idx and x[2] == inc]
+            for si in node.spec["offers"]:
+                s = SERVICES[si]
+                key = (s[0], s[1])
+                # instants at which this instance's up/down state changed, and its up intervals
+                changes, ups = [], []
+                stack_up = announced = False
+                up, since = False, None
+                for t, _i, _inc, what, arg in life:
+                    if what == "boot":
+                        stack_up, announced = True, True
+                    elif what in ("stop", "crash"):
+                        stack_up = False
+                    elif what == "start":
+                        stack_up = True
+                    elif what == "unannounce" and arg == si:
+                        announced = False
+                    elif what == "announce" and arg == si:
+                        announced = True
+                    else:
+                        continue
+                    now_up = stack_up and announced
+                    if now_up != up:
+                        changes.append(t)
+                        if up:
+                            ups.append((since, t))
+                        since, up = t, now_up
+                    elif what in ("stop", "start", "crash", "announce", "unannounce"):
+                        changes.append(t)
+                if up:
+                    ups.append((since, w.t_end + 10.0))
+                mc_offers = [x[0] for x in rec["offers"] if x[1] is None and x[2] == key]
+                by_src = collections.defaultdict(list)
+                for x in rec["offers"]:
+                    if x[1] is not None and x[2] == key:
+                        by_src[x[1]].append(x[0])
+                exps = collections.defaultdict(list)
+                for t, src, mc, f in rec["finds"]:
+                    if not fmatch(f, s):
+                        continue
+                    hi = t + (RR[1] if mc else 0.0)
+                    lo = t + (RR[0] if mc else 0.0)
+                    iv = next(((a, b) for a, b in ups if a < t - tol and b > hi + tol), None)
+                    near = any(t - tol <= c <= hi + tol for c in changes)
+                    if iv is not None and not near:
+                        first = next((o for o in mc_offers if o > iv[0] - tol), None)
+                        if first is not None and first < t - tol:
+                            status = "must"
+                        elif first is None or first > hi + tol:
+                            status = "never"
+                        else:
+                            status = "maybe"
+                    elif near or any(a - tol <= hi and b + tol >= t for a, b in ups):
+                        status = "maybe"
+                    else:
+                        status = "never"
+                    if hi > w.t_end - tol:
+                        status = "maybe" if status == "must" else status
+                    exps[src].append((lo, hi, status))
+                for src in set(exps) | set(by_src):
+                    answers = sorted(by_src.get(src, []))
+                    used = [False] * len(answers)
+                    todo = exps.get(src, [])
+                    w.stats["find_deliveries_judged"] += len(todo)
+                    # points to intervals: earliest deadline first is optimal; the finds that must be answered go first
+                    for wanted in ("must", "maybe"):
+                        for lo, hi, status in sorted((e for e in todo if e[2] == wanted), key=lambda e: (e[1], e[0])):
+                            k = next((i for i, a in enumerate(answers) if not used[i] and lo - tol <= a <= hi + tol), None)
+                            if k is not None:
+                                used[k] = True
+                                w.stats["find_answers_matched"] += 1
+                            elif status == "must":
+                                w.fail("find-not-answered-by-a-ready-matching-instance", node,
+                                       dict(service=s[:4], requester=src, window=(lo, hi), answers=answers[:8],
+                                            finds=[(a, b, st) for a, b, st in sorted(todo)][:8]))
+                    live = [e for e in todo if e[2] != "never"]
+                    for i, a in enumerate(answers):
+                        if not any(lo - tol <= a <= hi + tol for lo, hi, _st in live) or len(answers) > len(live):
+                            w.fail("unicast-offer-that-no-find-explains", node,
+                                   dict(service=s[:4], to=src, at=a, answers=answers[:8], finds=[(lo, hi, st) for lo, hi, st in sorted(todo)][:8]))
+                            break
+
+
 MONITORS = {"reboot": RebootMonitor, "wire": WireMonitor, "queue": QueueMonitor, "ack": AckMonitor, "offerlife": OfferLifeMonitor,
-            "finds": FindMonitor}
+            "finds": FindMonitor, "findanswer": FindAnswerMonitor}
 
 
 # ---------------------------------------------------------------------------------------------- world
@@ -646,6 +769,7 @@ class World:
         self.incarnation_end = {}
         self.t_end = 0.0
         self.lifelog = []  # (t, node index, incarnation, what, arg)
+        self.findlogs = []
         self.reg_log = {}  # (node index, incarnation, filter, period) -> [watched at, unwatched at or None]
         self.listener_history = {}  # (node index, incarnation) -> {(filter, period): [(t, kind, (service, source))]}
         self.monitors = [MONITORS[m](self) for m in want if m in MONITORS]
